@@ -150,7 +150,7 @@ func ReaderDiscard(k int) Driver {
 			return out
 		},
 		Run: func(src io.Reader, side streams.Side, cfg Cfg, res *Result) {
-			rd := &wsutil.Reader{Source: src, State: State(side), MaxFrameSize: cfg.MaxFrameSize}
+			rd := &wsutil.Reader{Source: src, State: State(side), MaxFrameSize: cfg.MaxFrameSize, CheckUTF8: cfg.CheckUTF8}
 			res.Reader = rd
 			rd.OnIntermediate = func(h ws.Header, r io.Reader) error {
 				p, err := io.ReadAll(r)
